@@ -367,7 +367,14 @@ impl<'s, M: Matcher, S: Sink> Core<'s, M, S> {
             }
             Some(line) => {
                 let range = Range::new(self.pos(), line.start());
-                self.set_pos(line.end());
+                // `line` is a non-match here. If it ends a run of matches
+                // and we've been asked to stop on a non-match, then leave
+                // it for the slow path, which knows how to stop at it.
+                if self.config.stop_on_nonmatch && !range.is_empty() {
+                    self.set_pos(line.start());
+                } else {
+                    self.set_pos(line.end());
+                }
                 range
             }
         };
